@@ -43,7 +43,9 @@ def fold_history(proj, base, obs_lists, n_calls=1):
             x, q2 = POINTS[i]
             k = {"x": x, "Q2": q2}
             if name.startswith("XS"):
-                k["y"] = Fraction(1, 3)
+                # inelasticities chosen such that two points of equal Q2 carry each other's (x, y) interchanged: points are
+                # distinguished by which value belongs to which variable, not by the multiset of values
+                k["y"] = {1: Fraction(1, 3), 3: Fraction(1, 2)}.get(i, Fraction(1, 3))
             kins.append(k)
         ob["observables"][name] = kins
     ext = {
